@@ -405,6 +405,36 @@ func (ex *executor) run() {
 // would): from then on THAT is the served directory, the former one is outside.
 func (ex *executor) reconfigure(idx int) {
 	h, ok := ex.h.(*webdav.Handler)
+	if ok && ex.plan.Config.Store == "memfs" && ex.mem() != nil {
+		// another backend with the same names and other contents, tags, times
+		// and types (a replica, a restored snapshot): from now on every call is
+		// answered from THAT one and reaches THAT one
+		old := ex.mem()
+		m := NewMemFS(ex.plan.Config.MemfsSeed ^ 0x9e3779b97f4a7c15 ^ uint64(idx))
+		m.UniqueTags, m.Conditional, m.tagSeq = old.UniqueTags, old.Conditional, old.tagSeq+1000
+		var names []string
+		for p := range old.nodes {
+			names = append(names, p)
+		}
+		sort.Strings(names)
+		for _, p := range names {
+			n := old.nodes[p]
+			if n.info.IsDir {
+				m.nodes[p] = &memNode{info: webdav.FileInfo{Path: p, IsDir: true, ModTime: exoticTime(m.rng)}}
+				continue
+			}
+			d := append([]byte("second backend: "), n.data...)
+			m.nodes[p] = &memNode{data: d, info: m.meta(p, d)}
+		}
+		m.nodes["/"] = &memNode{info: webdav.FileInfo{Path: "/", IsDir: true}}
+		h.FileSystem = m
+		ex.fs = m
+		ex.snap = ex.snapshot()
+		ex.tags = nil
+		ex.log.Addf("step %d the handler is reconfigured to use another backend (%d resources)", idx, len(names))
+		ex.probe("handler-reconfigured")
+		return
+	}
 	if !ok || ex.plan.Config.Store == "memfs" || strings.HasPrefix(ex.plan.Config.RootForm, "rel-") {
 		return
 	}
